@@ -129,9 +129,22 @@ class uninstall(repo_ops.uninstall):
     def remove_data(self):
         return True
 
+    def _set_aside(self):
+        """Take the package out of the listing in one step.
+
+        A tree removed piecemeal is, if we get interrupted, listed as a package
+        with half of its metadata missing; ``.tmp.`` entries are skipped.
+        """
+        base, dirname = os.path.split(self.remove_path)
+        doomed = pjoin(base, f".tmp.remove.{dirname}")
+        if os.path.lexists(doomed):
+            shutil.rmtree(doomed)
+        os.rename(self.remove_path, doomed)
+        return doomed
+
     def finalize_data(self):
         update_mtime(self.repo.location)
-        shutil.rmtree(self.remove_path)
+        shutil.rmtree(self._set_aside())
         update_mtime(self.repo.location)
         return True
 
@@ -153,8 +166,15 @@ class replace(repo_ops.replace, install, uninstall):
         # literal same fullver replacements), then wipe the unmerge
         # that minimizes the window for races, and gets the data in place
         # should unmerge somehow die.
-        uninstall.finalize_data(self)
+        if self.install_path != self.remove_path:
+            # another version: bring it in first, there's never a moment with neither.
+            install.finalize_data(self)
+            uninstall.finalize_data(self)
+            return True
+        update_mtime(self.repo.location)
+        doomed = self._set_aside()
         install.finalize_data(self)
+        shutil.rmtree(doomed)
         return True
 
 
